@@ -144,3 +144,14 @@ claim("C18", "other",
       "np.shares_memory on every copy / split / component pair plus a behavioural edit test; record-level trim.",
       TB + "A-NP-ALLOC (np.array copies), A-ARGMIN, A-JSON-FLOAT (repr(float) round trip, exercised not proved).",
       "contract-based deductive verification (z3+cvc5) + bounded native persistence / aliasing checks", "DESIGN.md 5/C18")
+
+claim("C09", "other",
+      "Frame obligations discharged on the AST of the real source (may-alias ownership analysis, modular through per-function write / "
+      "return-alias summaries computed to a fixpoint): for process() and the 17 functions it reaches, no augmented assignment, attribute or "
+      "item store, mutator-method call or callee can write storage reachable from the recordings, time series or spectra passed in; of the "
+      "settings object only fft_settings is written. Bounded (labelled): deep snapshots (samples, dt, orientation, metadata) around "
+      "process() for 11 methods x tapers x azimuth sets, a second identical call returns identical values, a returned result (values and "
+      "meta) is unchanged when recordings and settings are mutated afterwards, 36 jobs interleaved in random orders return what they "
+      "return alone (hidden state between calls). Known finding F-15 (fft_settings={'n': None} is not kept across calls) reported by its own clause.",
+      "Trusted: the analysis' table of allocating calls and copying constructors (the latter proved in C18/C04), scalar hints for index/count locals, numpy determinism.",
+      "frame/ownership obligations by may-alias analysis of the AST (contract frames) + bounded native snapshot checks", "DESIGN.md 5/C09")
